@@ -132,10 +132,12 @@ bcast_scenario(int idx) {
 		running[0] = 0;
 	if (2 == v->notrun) {
 		rc = tpt_msg_send(tp_thread_get(tpc_tp, (size_t)(v->W - 1)), NULL, 0, detach_cb, NULL);
-		if (0 != rc)
-			sc_fail("harness", "detach send rc=%d", rc);
 		sc_wait_quiescent();
 		running[v->W - 1] = 0;
+		if (0 != rc && 0 == tpt_is_running(tp_thread_get(tpc_tp, (size_t)(v->W - 1))))	/* the set-up send is a send like any other */
+			sc_fail("failed-send-ran-callback", "the detach message: tpt_msg_send returned %d but the thread ran it and left its loop", rc);
+		if (0 != rc)
+			sc_fail("harness", "detach send rc=%d", rc);
 		if (0 != tpt_is_running(tp_thread_get(tpc_tp, (size_t)(v->W - 1))))
 			sc_fail("harness", "detached thread still reported running");
 	}
